@@ -378,6 +378,14 @@ Definition builtin (f : string) (args : list pv) : res pv :=
                      | None => Err (OtherError ValueError)
                      end
          end) (split_on "."%char s "")
+  (* '%02x%02x%02x%02x-%02x%02x-%02x%02x-%02x%02x-%02x%02x%02x%02x%02x%02x' % tuple(reversed(guid)) *)
+  | "guid_string"%string, [v] =>
+      do l <- bytes_of_pv v;
+      let r := rev l in
+      let hx_ := fun (a b : nat) => join ""%string (map hex2 (firstn (b - a) (skipn a r))) in
+      if Nat.eqb (length l) 16
+      then Ok (PStr (join "-"%string [hx_ 0 4; hx_ 4 6; hx_ 6 8; hx_ 8 10; hx_ 10 16]%nat))
+      else Err (OtherError TypeError)
   (* VersionField((major, minor)) *)
   | "version_field"%string, [PInt ma; PInt mi] =>
       if (mi <? 0) || (255 <? mi) || (ma <? 0) || (255 <? ma) then Err (OtherError OtherExc)
